@@ -44,6 +44,35 @@ def c14_1(ctx):
     stores = {e.attr: norm(e.value) for e in wi.effects if e.kind == "setattr" and norm(e.target) == "self"}
     ctx.check(init.params()[1:7] == HEADER_FIELDS and all(stores.get(x) == x for x in HEADER_FIELDS), "header-fields", ctx.where(init), "Block.__init__ does not take and store the six header fields in order: %s" % {k: stores.get(k) for k in HEADER_FIELDS})
     _refcheck(ctx, BLOCK, "Block._calculate_hash", "blk_calculate_hash", "block-id-digest")
+    # a block without transactions is its 80-byte header on the wire: beyond stream_header, everything Block.stream (and the
+    # helper it calls) writes is written only when there are transactions
+    for nm in ("Block.stream", "Block._stream_transactions"):
+        g = ctx.func(BLOCK, nm)
+        wg = sym.walk(ctx, g)
+        has_txs = [a for a in sym.all_atoms(wg) if a in ("truthy(self.txs)", "0 == len(self.txs)", "len(self.txs) == 0", "0 < len(self.txs)")]
+        n_w = 0
+        for e in wg.effects:
+            if e.kind != "call":
+                continue
+            t = norm(e.call.func)
+            if not (t.endswith("stream_struct") or t.endswith(".write") or t.endswith(".stream")):
+                continue
+            n_w += 1
+            if e.reach is True:
+                ctx.bad("header-only-block-is-80-bytes:%s" % nm, ctx.where(g, e.node), "%s writes `%s` whether or not the block has transactions: a header-only block no longer serialises to the 80-byte header it was parsed from" % (nm, e.text()[:60]))
+                continue
+            pos = [a for a in has_txs if a.startswith("truthy(") or a.startswith("0 < ")]
+            neg = [a for a in has_txs if a not in pos]
+            guarded = any(sym.entails(e.reach, ("op", a)) for a in pos) or any(sym.entails(e.reach, ("not", ("op", a))) for a in neg)
+            empty_only = any(sym.entails(e.reach, ("not", ("op", a))) for a in pos) or any(sym.entails(e.reach, ("op", a)) for a in neg)
+            if guarded:
+                ctx.ok("header-only-block-is-80-bytes:%s" % nm, sample={"write": e.text()[:60], "only_when": "the block has transactions"})
+            elif empty_only:
+                ctx.bad("header-only-block-is-80-bytes:%s" % nm, ctx.where(g, e.node), "%s writes `%s` for a block WITHOUT transactions: a header-only block no longer serialises to the 80-byte header it was parsed from" % (nm, e.text()[:60]))
+            else:
+                ctx.undecided("header-only-block-is-80-bytes:%s" % nm, ctx.where(g, e.node), "%s writes `%s` under `%s`; this rule reads tests of self.txs" % (nm, e.text()[:50], str(e.reach)[:80]))
+        if n_w == 0 and nm == "Block._stream_transactions":
+            ctx.undecided("header-only-block-is-80-bytes:%s" % nm, ctx.where(g), "%s writes nothing this rule recognises" % nm)
     _refcheck(ctx, BLOCK, "Block.id", "blk_id", "block-id-text")
     # cache: if the memo of hash() is effective, every header mutator must invalidate it effectively
     c = ctx.p.cls(BLOCK, "Block")
@@ -247,6 +276,25 @@ def c14_3(ctx):
     _refcheck(ctx, MPP, "post_unpack_merkleblock", "mpp_post_unpack_merkleblock", "proof-verifier")
     _refcheck(ctx, MPP, "_recurse", "mpp_recurse", "traversal")
     _flag_bits_table(ctx, f)
+    # the right child of node k at level l exists iff 2k+1 < width(l+1): the width compared is the width of the CHILD level
+    r = ctx.func(MPP, "_recurse")
+    rp = r.params()
+    if len(rp) >= 3:
+        lw, lvl, node = rp[0], rp[1], rp[2]
+        wr = sym.walk(ctx, r, int_names=lambda t: True)
+        ats = [a for a in sym.all_atoms(wr) if ("%s[" % lw) in a and node in a and " < " in a]
+        if not ats:
+            ctx.undecided("right-child-by-child-level-width", ctx.where(r), "_recurse: no comparison of a child index with a level width found")
+        import re as _re
+        for a in ats:
+            idx = _re.findall(r"%s\[([^\]]+)\]" % _re.escape(lw), a)
+            good = all(i.replace(" ", "") in ("%s+1" % lvl, "1+%s" % lvl) for i in idx)
+            child = ("2 * %s" % node in a or "%s * 2" % node in a)
+            if not child:
+                ctx.undecided("right-child-by-child-level-width", ctx.where(r), "_recurse compares `%s`; this rule reads `2 * node + 1 < widths[level + 1]`" % a[:80])
+                continue
+            ctx.check(good, "right-child-by-child-level-width", ctx.where(r), "_recurse decides whether the right child exists by `%s`: the width must be that of the child level `%s[%s + 1]`; with another level's width a right-edge node's missing child is read from the proof (or an existing one is skipped)" % (a[:90], lw, lvl),
+                      sample={"test": a[:90]})
     m = ctx.func(MPP, "standard_message_post_unpacks")
     w = sym.walk(ctx, m)
     rets = [e for e in w.exits if e.kind == "return" and isinstance(e.value, ast.Dict)]
